@@ -382,7 +382,7 @@ def h_two_queries(cx, shape_a, shape_b, pattern):
     srv = Server2(sets)
     cx.patch(DC, "requests", srv, sym_only=False)
     client = DC.DataClient("TOKEN", url=BASE)
-    ga, gb = client.get_sessions("caltech"), client.get_sessions("jpl")
+    ga, gb = client.get_sessions("caltech"), client.get_sessions("jpl", cond='kWhDelivered > 5', sort="connectionTime")
     got = {"caltech": [], "jpl": []}
     if pattern == "lockstep":
         ia, ib = iter(ga), iter(gb)
@@ -407,6 +407,8 @@ def h_two_queries(cx, shape_a, shape_b, pattern):
             cx.check("%s:yielded[%d]_is_its_server_item" % (site, k), eq(g["_id"], t["id"]))
     gets = [x for x in srv.log if x[0] == "GET"]
     cx.check("one_request_per_page_of_each_query", len(gets) == len(shape_a) + len(shape_b), note="%d requests" % len(gets))
+    firsts = [g[1] for g in gets if g[1].startswith(BASE + "sessions/")]
+    cx.check("each_query_sends_only_its_own_parameters", sorted(firsts) == sorted([expected_first_url("caltech", None, None, None, False), expected_first_url("jpl", 'kWhDelivered > 5', None, "connectionTime", False)]), note=str(firsts))
     cx.observe("n", [len(got["caltech"]), len(got["jpl"])])
 
 
